@@ -1035,7 +1035,7 @@ fn parse_mapping(mapping: &Mapping) -> crate::Result<Expression> {
                                         .ascii_case_insensitive(true)
                                         .kind(Some(AhoCorasickKind::DFA))
                                         .build(vec![c.clone()])
-                                        .expect("failed to build dfa"),
+                                        .map_err(crate::error::parse_invalid_ident)?,
                                 ),
                                 vec![MatchType::Contains(c)],
                                 true,
@@ -1054,7 +1054,7 @@ fn parse_mapping(mapping: &Mapping) -> crate::Result<Expression> {
                                         .ascii_case_insensitive(true)
                                         .kind(Some(AhoCorasickKind::DFA))
                                         .build(vec![c.clone()])
-                                        .expect("failed to build dfa"),
+                                        .map_err(crate::error::parse_invalid_ident)?,
                                 ),
                                 vec![MatchType::EndsWith(c)],
                                 true,
@@ -1073,7 +1073,7 @@ fn parse_mapping(mapping: &Mapping) -> crate::Result<Expression> {
                                         .ascii_case_insensitive(true)
                                         .kind(Some(AhoCorasickKind::DFA))
                                         .build(vec![c.clone()])
-                                        .expect("failed to build dfa"),
+                                        .map_err(crate::error::parse_invalid_ident)?,
                                 ),
                                 vec![MatchType::Exact(c)],
                                 true,
@@ -1092,7 +1092,7 @@ fn parse_mapping(mapping: &Mapping) -> crate::Result<Expression> {
                                         .ascii_case_insensitive(true)
                                         .kind(Some(AhoCorasickKind::DFA))
                                         .build(vec![c.clone()])
-                                        .expect("failed to build dfa"),
+                                        .map_err(crate::error::parse_invalid_ident)?,
                                 ),
                                 vec![MatchType::StartsWith(c)],
                                 true,
@@ -1479,7 +1479,7 @@ fn parse_mapping(mapping: &Mapping) -> crate::Result<Expression> {
                                     AhoCorasickBuilder::new()
                                         .kind(Some(AhoCorasickKind::DFA))
                                         .build(needles)
-                                        .expect("failed to build dfa"),
+                                        .map_err(crate::error::parse_invalid_ident)?,
                                 ),
                                 context,
                                 false,
@@ -1498,7 +1498,7 @@ fn parse_mapping(mapping: &Mapping) -> crate::Result<Expression> {
                                     .ascii_case_insensitive(true)
                                     .kind(Some(AhoCorasickKind::DFA))
                                     .build(ineedles)
-                                    .expect("failed to build dfa"),
+                                    .map_err(crate::error::parse_invalid_ident)?,
                             ),
                             icontext,
                             true,
